@@ -268,7 +268,7 @@ ExtCmpVerdict(c) ==
 FaultVerdict(c) ==
   LET runs == c.extra.runs
       J == 1..Len(runs)
-      prod == c.sub.target \in {"parser", "adapter"} IN
+      prod == c.sub.target \in {"parser", "adapter", "fold"} IN
   (IF c.outcome # "ok" THEN <<"C16:outcome:" \o c.outcome>> ELSE <<>>)
   \o (IF c.outcome = "ok" /\ \E j \in J : runs[j].outcome # "ok" THEN <<"C16:panic while handling an injected failure">> ELSE <<>>)
   \o (IF c.outcome = "ok" /\ ~prod /\ \E j \in J : runs[j].outcome = "ok" /\ ~runs[j].reported
